@@ -1,4 +1,22 @@
 PROPS = {
+    "C10": {
+        "k": [("k_crypto", ["c10_"])],
+        "text": "Bounded model checking of the real Hash<N>/Hasher/nonce code. Hash<N> CBOR (N = 28, 32): on a buffer 58 L payload[36] with the length byte L symbolic, and on 36 arbitrary bytes (thorough), decode succeeds iff the item is a definite byte string of exactly N bytes and then returns its content; encode -> decode is the identity. Hex (N = 2 instance of the generic code): FromStr on four symbolic hex digits of either case yields the denoted bytes, lengths 2 and 6 are rejected; Display -> FromStr round trip (thorough). Byte streams handed to Blake2b (probe stubs for cryptoxide Blake2b::new / Digest::input / Digest::result: the digest exposes stream length and the bytes at two symbolic positions, so digest equality for all positions is stream equality, one nesting level deep): hash_tagged(b,t) = hash(t||b) for every tag and 8 symbolic bytes (256 and 224 bit), input(a);input(b) = input(a||b) for every split point, hash_cbor / hash_tagged_cbor = hash of the (tagged) CBOR bytes, generate_epoch_nonce = H(nc||nh) resp. H(H(nc||nh)||extra), generate_rolling_nonce = H(prev||H(vrf)) for 32- and 64-byte VRF outputs, and a VRF output of any other length up to 70 hits the documented length assertion.",
+        "note": "Outside and trusted: that cryptoxide's Blake2b computes RFC 7693 (a one-block symbolic compression exhausts goto-instrument); the stream properties are about what the wrappers feed to it. The should_panic harness shows the length assertion is reached and nothing else fails for lengths other than 32/64. serde impls are outside.",
+        "timeout": {"quick": 420, "thorough": 2400},
+    },
+    "C11": {
+        "k": [("k_crypto", ["c11_"])],
+        "text": "Bounded model checking of the real pallas_crypto::key::ed25519 wrappers. For all 2^512 inputs SecretKeyExtended::from_bytes / try_from accept exactly the keys with (b0 & 7) = 0, bit 254 set, bit 255 clear, and an accepted key holds the given bytes; PublicKey / Signature::try_from(&[u8]) accept exactly 32 / 64 bytes and copy them. Plumbing under contract stubs of cryptoxide::ed25519::{keypair, signature, signature_extended, extended_to_public, verify} (a deterministic toy scheme in which verify(m, pk(sk), sig(m, sk)) holds and everything else is rejected): for standard and extended keys, symbolic key bytes and messages of 0..=4 bytes, sign-then-verify succeeds and any single flipped bit of the message, the signature or the public key makes verify fail -- which catches swapped arguments, a key scrubbed before use, or the wrong key half being passed on.",
+        "note": "Outside: agreement of cryptoxide's Ed25519 with RFC 8032 (needs symbolic scalar multiplication and SHA-512); this is the larger part of the property as stated. The toy scheme is part of the trusted base of the plumbing harnesses only; the clamping and length harnesses use no stub beyond fmt::format.",
+        "timeout": {"quick": 420, "thorough": 2400},
+    },
+    "C12": {
+        "k": [("k_crypto", ["c12_"])],
+        "text": "Byte-layout part of the property only, decided by bounded model checking of the real Sum{1..7}Kes / Sum{1..7}KesSig code: every byte string of exactly 64 + 64*d bytes is accepted by SumdKesSig::from_bytes and to_bytes returns it unchanged (compared at a symbolic index), other lengths (d-1's size, one short, one long, empty) are rejected with InvalidSignatureSize; SumdKes::from_bytes accepts exactly 32 + 96*d + 4 bytes, get_period is the trailing big-endian word for every word value, and update() on a key whose period is 2^d - 1 returns KeyCannotBeUpdatedMore and leaves period and every buffer byte unchanged (arbitrary other key bytes).",
+        "note": "Outside (most of the property): signatures verify at exactly their period, public-key stability across updates, successful updates, keygen, and the whole compact-sum variant -- all of them run ed25519-dalek and Blake2b on symbolic seeds; dalek's types have private fields and cannot be stubbed. Period words >= 2^d are outside (from_bytes does not validate them; update() on 0xffffffff overflows period + 1).",
+        "timeout": {"quick": 420, "thorough": 2400},
+    },
     "C14": {
         "k": [("k_crypto", ["c14_"])],
         "text": "Bounded model checking of the real memeq/memcmp: for every pair of byte arrays and every compared length 1..=8 (thorough 1..=16) the solver shows memeq <=> equality and memcmp == lexicographic order; a two-byte harness drives the branchless accumulator step through every (accumulator, difference) pair; len==0 panics as documented. Complete within the length bound, which is all the property needs because the loop body does not depend on the length.",
